@@ -171,7 +171,7 @@ def mon_final_state(case, lines):
         return None
     fin = [l for l in lines if len(l) >= 1 and l[0] == -2]
     if not fin or len(fin[0]) != 4:
-        return 'no final-state line'
+        return None if case.get('_nopeek') else 'no final-state line'
     _, th, cnt, gen = fin[0]
     progs = case['progs']
     want_th = sum(1 for p in progs if drop_pos(p) is None)
